@@ -16,7 +16,8 @@ def soups(rng, count, max_atoms=8):
 def custom_soups(rng, vocab, count, max_atoms=8):
     """Token soups over the names of a generated custom context."""
     atoms = ['\\' + n for n in vocab.macros] + ['\\begin{%s}' % e for e in vocab.envs] \
-        + ['\\end{%s}' % e for e in vocab.envs] + list(vocab.specials) + ['*', '+', '(', ')', '<', '>', '|', '[', ']']
+        + ['\\end{%s}' % e for e in vocab.envs] + list(vocab.specials) + ['*', '+', '(', ')', '<', '>', '|', '[', ']'] \
+        + ['\\begin{%s}' % e for e in vocab.verb_envs] + ['\\end{%s}' % e for e in vocab.verb_envs] + ['^', '_', '\n']
     for _ in range(count):
         yield soup.soup(rng, atoms, max_atoms=max_atoms, p_basic=0.5)
 
